@@ -566,7 +566,8 @@ def get_sort(node):
         return __get_sort_cache[node]
     try:
         sort = _get_sort_aux(node)
-    except (IndexError, ValueError, AttributeError, AssertionError):
+    except (IndexError, ValueError, AttributeError, AssertionError,
+            TypeError):
         # malformed term (e.g., an operator without operands): unknown sort
         sort = None
     __get_sort_cache[node.id] = sort
